@@ -31,7 +31,7 @@ UNPROVED = ["normwise backward error of the returned values in f64 (tie + search
             "that libm's sqrt/pow return square/cube roots (hypotheses of quadratic_factors / cubic_factors; in the tie they are recorded values)"]
 
 MANIFEST = dict(
-    text=("Proved in Coq (19 theorems; closed under the global context except float_roots_memory_safe, which mentions Coq's primitive-float constants) for the executable model coq/Model/Roots.v -- ONE definition, "
+    text=("Proved in Coq (21 theorems; closed under the global context except float_roots_memory_safe, which mentions Coq's primitive-float constants) for the executable model coq/Model/Roots.v -- ONE definition, "
           "instantiated at an abstract field for the closed forms and at IEEE binary64 + the recorded libm calls for the tie. "
           "For every arithmetic (floats included): poly_solve returns exactly n values for degree n >= 1 and rejects degree 0 "
           "(roots_length, degree0_rejected); laguer makes at most MAXIT-1 passes, MAXIT regenerated from the source, and an Exhausted exit "
@@ -41,7 +41,8 @@ MANIFEST = dict(
           "value whose call exits Converged passes the smallness test on the undeflated polynomial (polished_converged); the snapping rule "
           "(snap_cases); for the float instance with ANY oracle table and every nonempty input no Vec access is out of bounds and no usize "
           "subtraction underflows, so the only panic of Polynomial::roots is the degree-0 guard (float_roots_memory_safe). Over any commutative ring: laguer's inner loop computes (p(x), p'(x), p''(x)/2), identified by the Taylor expansion "
-          "(horner_triple, taylor_expansion); one deflation is p(t) = (t-x) q(t) + p(x) (deflate_spec); the whole deflation phase recomposes "
+          "and the running error bound errv (horner_triple, taylor_expansion), so a Converged exit means |p(x)| <= EPS*errv(p,x) at the "
+          "returned iterate, for a polished value on the undeflated polynomial (converged_means_small, polished_converged_small); one deflation is p(t) = (t-x) q(t) + p(x) (deflate_spec); the whole deflation phase recomposes "
           "p exactly from the values found and one residual per value, hence p = a_n prod (t - x_j) when the residuals vanish "
           "(deflation_recomposes). Over any field with 2, 3 invertible: the linear, quadratic (either sign choice; the repaired q = 0 "
           "branch, where the legacy code divides by zero; totality) and Cardano formulas (either sign test, incl. the triple-root branch) "
@@ -295,6 +296,7 @@ def case_from_json(j):
     return c
 
 # ----------------------------------------------------------------------------- oracle: the property statement
+MATCH_CHECKED = [0]   # cases on which the one-to-one matching with prescribed roots was evaluated
 FAILS = {}        # case line -> failure kind (read by finding_key)
 FAILED_CASES = {} # case line -> case, every input the oracle rejected (their model traces are computed in one batch)
 
@@ -354,6 +356,7 @@ def oracle(case, items):
                 kappa = am * max(1.0, abs(pc[i])) ** n / dp
                 if kappa * float(theta) > 1e-7: ok = False
             if ok:
+                MATCH_CHECKED[0] += 1
                 used = [False] * n
                 for i in range(n):
                     tol = 1e-6 * max(1.0, abs(pc[i]))
@@ -520,6 +523,7 @@ def extra_coverage():
         byfail[kind] = byfail.get(kind, 0) + 1
     return {"libm_calls_recorded": sum(logs), "cases_with_oracle_table": sum(1 for n in logs if n > 0),
             "largest_oracle_table": max(logs) if logs else 0, "executor_without_hook_cases": nohook,
+            "one_to_one_matching_evaluated_on": MATCH_CHECKED[0],
             "oracle_failures_by_kind": byfail, "oracle_failures_by_known_finding_key": dict(KEY_COUNTS),
             "thresholds": {"theta_polished": THETA_POLISHED, "theta_unpolished": THETA_UNPOLISHED,
                            "matching": "1e-6 * max(1,|r|) when separation >= 0.1 and kappa * theta <= 1e-7"}}
